@@ -110,8 +110,8 @@ type API struct {
 	store *Store // non-nil when inner is the in-memory store
 	// RecordReads keeps deep copies of what every Get/List returned in the call log.
 	RecordReads bool
-	mu    sync.Mutex
-	Log   []*Call
+	mu          sync.Mutex
+	Log         []*Call
 	// FaultFn decides the fault for a call (called with the call index and the call key); nil = none.
 	FaultFn func(idx int, c *Call) string
 	stopped bool
@@ -121,7 +121,7 @@ type API struct {
 	// ReverseLists returns lists in reverse name order (a thorough-tier deviation).
 	ReverseLists bool
 	// Hook is called before every pod create/delete with the call (C17 controlled scheduler); may block.
-	Hook func(c *Call) error
+	Hook  func(c *Call) error
 	quiet bool
 }
 
@@ -478,8 +478,8 @@ func (s *statusWriter) Patch(ctx context.Context, obj client.Object, patch clien
 	return c.Err
 }
 
-func (a *API) Scheme() *runtime.Scheme        { return Scheme }
-func (a *API) RESTMapper() meta.RESTMapper    { return a.inner.RESTMapper() }
+func (a *API) Scheme() *runtime.Scheme     { return Scheme }
+func (a *API) RESTMapper() meta.RESTMapper { return a.inner.RESTMapper() }
 func (a *API) GroupVersionKindFor(obj runtime.Object) (schema.GroupVersionKind, error) {
 	return a.inner.GroupVersionKindFor(obj)
 }
